@@ -794,7 +794,7 @@ Lemma request_frame_corr cid tag c f :
   exists mt body, serialize c = Some (mt, body) /\ firstn 4 (skipn 8 f) = be 4 tag /\ i32 tag.
 Proof.
   unfold request_frame. intros H. inv_obind H as mb Emb. destruct mb as [mt body]. inv_obind H as h Eh.
-  inversion H; subst; clear H. exists mt, body. split; [reflexivity|].
+  inversion H; subst; clear H. exists mt, body. split; [exact Emb|].
   apply request_header_some in Eh as (cb & _ & -> & _ & Ht & _ & _). split; [|exact Ht].
   unfold wheader. rewrite <- !app_assoc.
   rewrite (app_assoc (be 2 0)), (app_assoc (be 2 mt)), (app_assoc (be 4 _)).
